@@ -373,6 +373,9 @@ func (e *Expression) Insert(res fhir.Resource, value fhir.Base, index int, optio
 	if res == nil {
 		return fmt.Errorf("%w: nil input resource", ErrInvalidInput)
 	}
+	if value == nil {
+		return fmt.Errorf("%w: nil value to insert", ErrInvalidInput)
+	}
 	ctx, evalResult, err := e.evaluate(res, options...)
 	if err != nil {
 		return err
@@ -474,6 +477,9 @@ func (e *Expression) Move(resource fhir.Resource, sourceIndex, destIndex int, op
 func (e *Expression) Replace(resource fhir.Resource, value fhir.Base, options ...fhirpath.EvaluateOption) error {
 	if resource == nil {
 		return fmt.Errorf("%w: nil input resource", ErrInvalidInput)
+	}
+	if value == nil {
+		return fmt.Errorf("%w: nil replacement value", ErrInvalidInput)
 	}
 	ctx, evalResult, err := e.evaluate(resource, options...)
 	if err != nil {
@@ -706,7 +712,7 @@ func intValueFromInt(msg protoreflect.Message, val intable) (fhir.Base, error) {
 	if valueField != nil {
 		var intValue protoreflect.Value
 		switch valueField.Kind() {
-		case protoreflect.Int32Kind:
+		case protoreflect.Int32Kind, protoreflect.Sint32Kind, protoreflect.Sfixed32Kind:
 			intValue = protoreflect.ValueOfInt32(val.GetValue())
 		case protoreflect.Uint32Kind:
 			if val.GetValue() < 0 {
@@ -714,6 +720,7 @@ func intValueFromInt(msg protoreflect.Message, val intable) (fhir.Base, error) {
 			}
 			intValue = protoreflect.ValueOfUint32(uint32(val.GetValue()))
 		default:
+			return nil, nil // not an integer-valued element: no conversion, the type check reports the mismatch
 		}
 		container.Set(valueField, intValue)
 		return container.Interface(), nil
